@@ -28,6 +28,7 @@ import (
 	"os/exec"
 	"path/filepath"
 	"runtime"
+	"runtime/debug"
 	"sort"
 	"strings"
 	"sync"
@@ -274,7 +275,9 @@ func c08Read(ctx context.Context, acc eds.AccessorStreamer, b *c08Block, rng *zv
 		if err != nil {
 			return what, "error: " + err.Error()
 		}
-		if !roots.Equals(b.roots) {
+		// compared field by field: AxisRoots.Equals / Hash memoize the hash inside the value, and the proofs cache hands one
+		// *AxisRoots to every holder of a cached accessor (no caller in the repository hashes it; see the spec's trusted base)
+		if !c08SameRoots(roots, b.roots) {
 			return what, "wrong roots"
 		}
 		dh, err := acc.DataHash(ctx)
@@ -286,6 +289,23 @@ func c08Read(ctx context.Context, acc eds.AccessorStreamer, b *c08Block, rng *zv
 		}
 	}
 	return what, ""
+}
+
+func c08SameRoots(a, b *share.AxisRoots) bool {
+	if a == nil || len(a.RowRoots) != len(b.RowRoots) || len(a.ColumnRoots) != len(b.ColumnRoots) {
+		return false
+	}
+	for i := range a.RowRoots {
+		if !bytes.Equal(a.RowRoots[i], b.RowRoots[i]) {
+			return false
+		}
+	}
+	for i := range a.ColumnRoots {
+		if !bytes.Equal(a.ColumnRoots[i], b.ColumnRoots[i]) {
+			return false
+		}
+	}
+	return true
 }
 
 // ---------------------------------------------------------------- environment, operations, history
@@ -350,7 +370,6 @@ type c08Env struct {
 const c08Patience = 90 * time.Second
 
 var c08BlockCache = map[string]*c08Block{}
-var c08RaceSeen int
 var c08Pfx string // "race_" in the race-detector run: the driver merges the histograms of all harness runs by name
 
 func c08Blocks(ks []int, base uint64) ([]*c08Block, error) {
@@ -979,28 +998,64 @@ func c08RaceLogPrefix() string {
 	return ""
 }
 
-func c08RaceReports() string {
+func c08RaceFiles() []string {
 	prefix := c08RaceLogPrefix()
 	if prefix == "" {
-		return ""
+		return nil
 	}
 	files, _ := filepath.Glob(prefix + ".*")
+	sort.Strings(files)
+	return files
+}
+
+// c08RaceReports returns what the detector has written since the last call (per log file: the probe child and this
+// process write to different files).
+func c08RaceReports() string {
 	var sb strings.Builder
-	for _, f := range files {
-		if b, err := os.ReadFile(f); err == nil {
-			sb.Write(b)
+	for _, f := range c08RaceFiles() {
+		if b, err := os.ReadFile(f); err == nil && len(b) > c08RaceRead[f] {
+			sb.Write(b[c08RaceRead[f]:])
+			c08RaceRead[f] = len(b)
 		}
 	}
 	return sb.String()
 }
 
-func c08ClearRaceReports() {
-	if prefix := c08RaceLogPrefix(); prefix != "" {
-		files, _ := filepath.Glob(prefix + ".*")
-		for _, f := range files {
-			_ = os.Remove(f)
+var c08RaceRead = map[string]int{}
+
+// c08RaceSig names the class of a report: the first frame of the code under test (not of this harness), without the
+// method name, e.g. data-race-share.eds.closeOnce.
+func c08RaceSig(report string) string {
+	for _, ln := range strings.Split(report, "\n") {
+		i := strings.Index(ln, "celestia-node/")
+		if i < 0 || strings.Contains(ln, ".go:") {
+			continue
 		}
+		name := strings.TrimSuffix(strings.TrimSpace(ln[i+len("celestia-node/"):]), "()")
+		if strings.HasPrefix(name, "store.c08") || strings.HasPrefix(name, "store.(*c08") || strings.HasPrefix(name, "store.TestVerif") || strings.HasPrefix(name, "zzverif.") {
+			continue
+		}
+		if j := strings.Index(name, ")."); j >= 0 { // pkg.(*T).method -> pkg.T
+			name = name[:j]
+		}
+		return "data-race-" + strings.Map(func(c rune) rune {
+			switch {
+			case c >= 'a' && c <= 'z', c >= 'A' && c <= 'Z', c >= '0' && c <= '9', c == '.', c == '-', c == '_':
+				return c
+			case c == '/':
+				return '.'
+			}
+			return -1
+		}, name)
 	}
+	return "data-race"
+}
+
+func c08ClearRaceReports() {
+	for _, f := range c08RaceFiles() {
+		_ = os.Remove(f)
+	}
+	c08RaceRead = map[string]int{}
 }
 
 // ---------------------------------------------------------------- script generation
@@ -1071,6 +1126,10 @@ func c08Round(t *testing.T, zr *zv.Run, cfg c08Cfg, g *zv.Group, reuse map[strin
 	if e.s.stripLock.byHeight(e.blocks[0].h) != e.s.stripLock.byHeight(e.blocks[len(e.blocks)-1].h) {
 		zr.Violation("harness-stripes", "the heights no longer share a lock stripe: stripe count changed", cfg)
 	}
+	if cfg.Shape == "reput" {
+		// sequential and tiny: with the collector off no finalizer can hide a dropped descriptor, the oracle is deterministic
+		defer debug.SetGCPercent(debug.SetGCPercent(-1))
+	}
 	init := e.content(false)
 	t1 = time.Now()
 	// sequential prologue (part of the history), under the watchdog like everything else
@@ -1090,29 +1149,22 @@ func c08Round(t *testing.T, zr *zv.Run, cfg c08Cfg, g *zv.Group, reuse map[strin
 	}
 	zr.Count(c08Pfx+"rounds", cfg.Shape)
 	zr.Count(c08Pfx+"cache_sizes", fmt.Sprintf("recent=%d cached=%d", cfg.Recent, cfg.Cached))
-	if rep := c08RaceReports(); len(rep) > c08RaceSeen {
-		txt := rep[c08RaceSeen:]
-		c08RaceSeen = len(rep)
-		if len(txt) > 3000 {
-			txt = txt[:3000]
-		}
-		sig := "data-race"
-		for _, ln := range strings.Split(txt, "\n") { // the first frame inside the repository names the class
-			if i := strings.Index(ln, "celestia-node/"); i >= 0 && !strings.Contains(ln, ".go:") {
-				name := strings.TrimSuffix(strings.TrimSpace(ln[i+len("celestia-node/"):]), "()")
-				sig = "data-race-" + strings.Map(func(c rune) rune {
-					switch {
-					case c >= 'a' && c <= 'z', c >= 'A' && c <= 'Z', c >= '0' && c <= '9', c == '.', c == '-':
-						return c
-					case c == '/':
-						return '.'
-					}
-					return -1
-				}, name)
-				break
+	if rep := c08RaceReports(); strings.Contains(rep, "DATA RACE") {
+		seen := map[string]bool{}
+		for _, one := range strings.Split(rep, "==================") {
+			if !strings.Contains(one, "DATA RACE") {
+				continue
 			}
+			sig := c08RaceSig(one)
+			if seen[sig] {
+				continue
+			}
+			seen[sig] = true
+			if len(one) > 5000 {
+				one = one[:5000]
+			}
+			e.violation(sig, "the race detector reported during this round:"+one)
 		}
-		e.violation(sig, "the race detector reported during this round:\n"+txt)
 	}
 	return true
 }
@@ -1326,7 +1378,6 @@ func c08RaceSelfTest(r *zv.Run) bool {
 	cmd.Env = append(os.Environ(), "VERIF_C08_RACE_PROBE=1")
 	out, _ := cmd.CombinedOutput() // the probe fails by design
 	rep := c08RaceReports()
-	c08RaceSeen = len(rep)
 	if !strings.Contains(rep, "DATA RACE") || !strings.Contains(rep, "c08RaceProbe") {
 		tail := string(out)
 		if len(tail) > 600 {
